@@ -178,9 +178,9 @@ FS_NOTE = "FileSink.Process / Reopen / reopen / open / rotate / pruneFiles / fil
 PROPS["C08"] = dict(
     level="other",
     explanation=FS_NOTE + "Assertions: an acknowledged event is appended exactly once and contiguously to the file the sink holds; existing files keep their content; only the oldest rotated files are removed and only under a retention limit; foreign files untouched; Reopen after an external rename keeps the renamed inode intact and starts a fresh file.",
-    jobs=[dict(harness=BROKER_H, entries=r"^H_C08_(Process|Reopen|history)$", params=dict(quick=dict(R=1, FAULTS=0, H=4), thorough=dict(R=3, FAULTS=0, H=5)), shards=dict(quick=16, thorough=16), instrument_clock=True),
+    jobs=[dict(harness=BROKER_H, entries=r"^H_C08_(Process|Reopen|history)$|^H_C15_fresh_directory$", params=dict(quick=dict(R=1, FAULTS=0, H=4), thorough=dict(R=3, FAULTS=0, H=5)), shards=dict(quick=16, thorough=16), instrument_clock=True),
           dict(harness=BROKER_H, entries=r"^H_C08_concurrent_writers$", params=dict(quick={}, thorough={}), shards=dict(quick=4, thorough=8), maxswitches=dict(quick=3, thorough=5), instrument_locks=True)],
-    must_reach=["C08.concurrent.end", "C08.history.end", "C08.process.norotate", "C08.process.rotated", "C08.process.opened", "C08.reopen.renamed", "C08.reopen.plain"],
+    must_reach=["C08.concurrent.end", "C08.history.end", "C15.fresh-directory.end", "C08.process.norotate", "C08.process.rotated", "C08.process.opened", "C08.reopen.renamed", "C08.reopen.plain"],
     bounds=dict(quick="<=1 rotated file + active + 2 foreign files; one operation from an arbitrary state (inductive step); histories of 4 operations (write / Reopen / external rename + Reopen) from an empty directory, MaxFiles 0..2, any MaxBytes / MaxDuration / clock", thorough="<=3 rotated files; histories of 5 operations"),
     assumptions=["A-write: one write(2) on an O_APPEND descriptor is all-or-nothing, also under SIGKILL (partial writes and kernel crash behaviour are outside the claim)", "A-19digits: timestamps print with the same number of digits", "the clock is non-decreasing and strictly increasing between two file creations", "A-umask: the process umask is 022 (files get the configured mode only through the sink's explicit chmod)", "concurrent writers: every access happens with FileSink.l held (lockset in C19)"],
     trusted_base=COMMON_TRUST + ["ghost file system contracts (engine/symex/fsmodel.go)"],
